@@ -336,7 +336,28 @@ def run(ck):
             for c in [x for x in walk_body(fn) if isinstance(x, ast.Call) and callee_attr(x) in ("func_ret_stdcall", "func_ret_cdecl") and len(x.args) == 3]:
                 lo, hi = norm(c.args[1]).replace(" ", ""), norm(c.args[2]).replace(" ", "")
                 if ">>32" in lo or ">>32" in hi:
-                    ok = lo.endswith("&4294967295") and ">>32" not in lo and ">>32" in hi and hi.endswith("&4294967295")
+                    # (low, high) = (X mod 2**32, (X >> 32) mod 2**32) of ONE value X: masks that keep at least the bits read are transparent,
+                    # each half is provably below 2**32 (its own mask, or a 64-bit mask on X)
+                    from sa import bitrange as _br
+                    from sa.astutil import Resolver as _Rs
+                    _res = _Rs(fn)
+
+                    def strip(e, keep):
+                        """drop `& m` when m has (at least) its `keep` low bits set"""
+                        while isinstance(e, ast.BinOp) and isinstance(e.op, ast.BitAnd):
+                            for a_, b_ in ((e.left, e.right), (e.right, e.left)):
+                                if isinstance(b_, ast.Constant) and isinstance(b_.value, int) and b_.value & ((1 << keep) - 1) == (1 << keep) - 1:
+                                    e = a_
+                                    break
+                            else:
+                                break
+                        return e
+                    e_lo, e_hi = _res.expand_node(c.args[1]), _res.expand_node(c.args[2])
+                    b_lo, b_hi = _br.bits(e_lo, _Rs(ast.parse("def f(): pass").body[0])), _br.bits(e_hi, _Rs(ast.parse("def f(): pass").body[0]))
+                    x_lo = strip(e_lo, 32)
+                    h_ = strip(e_hi, 32)
+                    x_hi = strip(h_.left, 64) if isinstance(h_, ast.BinOp) and isinstance(h_.op, ast.RShift) and norm(h_.right) == "32" else None
+                    ok = x_hi is not None and norm(strip(x_lo, 64)) == norm(x_hi) and b_lo is not None and b_lo <= 32 and b_hi is not None and b_hi <= 32
                     ck.ob("R1", "%s:result-halves" % q, ok, m.where(c), "64-bit result returned as (%s, %s): expected (low, high)" % (lo, hi))
             # ------------------------------------------------------------ R2
             finds = [c for c in walk_body(fn) if isinstance(c, ast.Call) and isinstance(c.func, ast.Attribute) and c.func.attr in ("find", "rfind")
